@@ -3,17 +3,10 @@ import TaRs.Lemmas.Core.PercentagePriceOscillator
 import TaRs.Gen.PercentagePriceOscillator
 import TaRs.Lemmas.ExponentialMovingAverage
 import TaRs.Lemmas.Total.PercentagePriceOscillator
+import TaRs.Lemmas.Bar.PercentagePriceOscillator
 namespace TaRs.Gen.PercentagePriceOscillator
 open TaRs TaRs.Rs
 variable {F : Type} [Scalar F]
-
-/-- wiring of the bar path: WHICH field of the bar `next(&bar)` reads (a value-level fact, hence
-    here and not among the value-agnostic totality lemmas) -/
-theorem nextBar_eq (s : PercentagePriceOscillator F) (b : Bar F) :
-    s.nextBar b = s.next b.close := by
-  unfold nextBar
-  try simp only [gen_helper]
-  cases h : s.next b.close <;> simp [h]
 
 /-- the oscillator value as the code computes it: `(fast − slow) / slow * 100.0` -/
 def ppoVal (fast slow : F) : F :=
